@@ -1,3 +1,4 @@
+pub mod data;
 pub mod lin;
 pub mod model;
 pub mod text;
